@@ -131,8 +131,8 @@ PROPS['C14'] = {'assumptions': ['single writer goroutine (StoreLogs/DeleteRange 
                  'Close callers',
                  'in-memory VFS/MetaStore emulate *os.File (read after Close fails) and BoltMetaDB (calls after Close fail)',
                  'proved for all schedules: after_close, mutual exclusion; proved for all reachable states of a single-writer system (inductive invariant '
-                 'Safe /\\ Inv1 /\\ Inv2): no panic, no deadlock, rotator exit, only results or ErrClosed, all handles released exactly once; '
-                 'ErrSealed from StoreLogs is not excluded by the proof'],
+                 'Safe /\\ Inv1 /\\ Inv2, and the sealed-tail invariant Inv4): no panic, no deadlock, rotator exit, only results or ErrClosed (strict: no '
+                 'ErrSealed, no I/O or metaDB error), all handles released exactly once'],
  'rule': 'every API method x 9 call windows x 5 stages of Close x 3 initial logs; writer waiting for a pending rotation x rotator stage x Close stage; random '
          'programs/schedules; distinct = distinct input lines',
  'streams': [{'n': (4500, 60000), 'name': 'sched14', 'timeout': 3000, 'vm': (25, 250), 'vm_maxlen': 400}],
@@ -147,7 +147,8 @@ PROPS['C06'] = {'assumptions': ['single writer; base-index resets are run on the
          'reader window x writer progress; two readers on one old state; random programs/schedules; 2 stress runs (8 readers); distinct = distinct input lines',
  'streams': [{'n': (2200, 40000), 'name': 'sched06', 'timeout': 3000, 'vm': (20, 200), 'vm_maxlen': 400}],
  'trusted': ['Go compiler/runtime and standard library (encoding/binary, time, hash/crc32) -- differentially tested, not verified',
-             'Go memory model: data-race freedom is judged by the race detector on the harness binary (thorough tier), the model-level statement is '
+             'Go memory model: data-race freedom is judged by the race detector on the harness binary (stream race06 in both tiers, plus the sched06 '
+             'stress under -race in the thorough tier), the model-level statement is '
              'C06_no_conflict_partial']}
 
 # C06: stress under the Go race detector (implementation only; bin/wh-race is built by check.py)
